@@ -47,7 +47,7 @@ META = {
             "start positions inside / at the end / beyond the data, max_length 0 / 1 / < len / >= len, ready patterns with stalls on "
             "first and last word",
 }
-TIERS = {"quick": {"runs": 3000, "wall": 70}, "thorough": {"runs": 40000, "wall": 900}}
+TIERS = {"quick": {"runs": 9000, "wall": 70}, "thorough": {"runs": 40000, "wall": 900}}
 
 
 # ------------------------------------------------------------------------------------------------
